@@ -24,6 +24,7 @@ type c02Hist struct {
 	CoTenant int    `json:"co_tenant,omitempty"` // C09: adversarial pool co-tenant between operations (1 keeps, 2 frees again)
 	Prop     string `json:"prop,omitempty"`
 	RelEach  bool   `json:"release_after_each_next,omitempty"` // the reader is Released after every Next (the decoder stays)
+	PreSkipN int    `json:"skipn_before_each_next,omitempty"`  // io.Reader decoder only: this many filler bytes precede every value and are taken with the exported SkipN right before Next
 }
 
 // c02HistN: the values every history product ranges over; index c02HistN is one more value, larger than 1 MiB, used in
@@ -92,6 +93,9 @@ func c02HistOne(c *mc.Ctx, k c02Hist) {
 					e = ref.Encode(nil, &vals[vi])
 				}
 				encs = append(encs, e)
+				for f := 0; f < k.PreSkipN; f++ {
+					stream = append(stream, byte(0xf0+f))
+				}
 				stream = append(stream, e...)
 			}
 			stream = append(stream, 0x7e) // one trailing byte
@@ -135,6 +139,15 @@ func c02HistOne(c *mc.Ctx, k c02Hist) {
 				} else if _, perr := d.Next(thrift.STRUCT); perr == nil {
 					bad("poison-accepted", "round %d: a struct with an unknown field type was accepted", round)
 					return
+				}
+				if k.PreSkipN > 0 {
+					// the decoder's exported SkipN is used directly (legal: it is part of its interface), then Next
+					fb, ferr := d.(interface{ SkipN(int) ([]byte, error) }).SkipN(k.PreSkipN)
+					if ferr != nil || len(fb) != k.PreSkipN || fb[0] != 0xf0 {
+						bad("skipn", "round %d, SkipN(%d) before Next #%d returned (%x, %v)", round, k.PreSkipN, i, fb, ferr)
+						return
+					}
+					pos += k.PreSkipN
 				}
 				b, err := d.Next(tt)
 				if err != nil {
@@ -254,6 +267,17 @@ func c02Histories(c *mc.Ctx) {
 				c02HistOne(c, c02Hist{Decoder: dec, Seq: seq, Env: env})
 				if (dec == skDecStream || dec == skDecBytesR) && len(seq) >= 2 {
 					c02HistOne(c, c02Hist{Decoder: dec, Seq: seq, Env: env, RelEach: true})
+				}
+			}
+		}
+	}
+	// the io.Reader decoder: filler bytes taken with SkipN right before every Next
+	for _, seq := range [][]int{{0}, {1}, {0, 1}, {3, 0, 1}, {2, 2}, {6, 0}} {
+		for _, n := range []int{1, 3, 4097} {
+			for _, env := range envs[:3] {
+				if c.Mine() {
+					c.Distinct("hist-skipn", fmt.Sprint(seq), n, env.String())
+					c02HistOne(c, c02Hist{Decoder: skReaderSkip, Seq: seq, Env: env, PreSkipN: n})
 				}
 			}
 		}
